@@ -1,6 +1,7 @@
 import SlugModel.FS
 import SlugModel.Unpack
 import SlugModel.Ignore
+import SlugModel.Generated.Slug
 /-!
 # Pack — model of `Packer.Pack` (walk, ignore tests, header construction, dereferencing)
 
@@ -80,7 +81,7 @@ def replaceFirst (s old new : Str) : Str :=
   | some i => s.take i ++ new ++ s.drop (i + old.length)
 
 /-- bound on the length of a symlink chain followed when dereferencing (`maxLinkHops`) -/
-def maxLinkHops : Nat := 255
+def maxLinkHops : Nat := Generated.maxLinkHops   -- extracted from slug.go on every run
 
 /-- `resolveExternalLinkHops`: (absolute target, node) of the first non-link at the end of the
 chain; the argument counts the hops still allowed ("too many levels of symbolic links" when
